@@ -169,6 +169,10 @@ func runFlavour(c *vf.Ctx, bin string, fl flavour) *env {
 		// Phase G: grant / revoke matrix
 		e.runGrants(rnd, c.Pick(10, 150))
 		fmt.Printf("[%s] phase G (grant/revoke) done after %.1fs\n", e.tag(), time.Since(t0).Seconds())
+
+		// Phase L: passwords that were valid and no longer are
+		e.runLifecycle()
+		fmt.Printf("[%s] phase L (credential life cycle) done after %.1fs\n", e.tag(), time.Since(t0).Seconds())
 	}
 
 	// Phase B: sufficient credentials really act, so this comes last
